@@ -40,6 +40,22 @@ def relation_arg_vs_cur(F, body, c, arg_slice):
     return None
 
 
+def caller_sources(F, body, sl):
+    """sources of the callers' operands for every parameter the slice depends on (one level up):
+    lets a guard keep its meaning when the guarded statement was extracted into a helper"""
+    out = set()
+    root = F.root_of[body.id]
+    params = [x for x in sl.sources if x[0] == "param"]
+    if not params:
+        return out
+    for (croot, cbid, cbi, ct) in F.callers_of(lambda k: k == root):
+        cb = F.bodies[cbid]
+        for (_p, idx, _n) in params:
+            if idx - 1 < len(ct["args"]):
+                out |= Slice(F, cb).operand(ct["args"][idx - 1]).sources
+    return out
+
+
 def run(ctx):
     F = ctx.F
     # ---------------------------------------------------------------- C02-a persist before reply / return
@@ -119,7 +135,8 @@ def run(ctx):
                     return True
             if c.kind == "discr":
                 s = cond_slice(F, c)
-                if c.variants == {"Some"} and s.has_field("StateUpdate", "term_update"):
+                if c.variants == {"Some"} and (s.has_field("StateUpdate", "term_update") or
+                                               any(x[0] == "field" and x[2] == "term_update" and strip_generics(x[1]).endswith("StateUpdate") for x in caller_sources(F, b, s))):
                     return True
                 if c.variants == {"HigherTerm"}:
                     return True
